@@ -246,6 +246,9 @@ func (r *MRunner) Do(s Step) (res MRes) {
 	case "arch_archive":
 		res.DontCare = true
 		for _, mb := range s.Members {
+			if mb.FailOpen {
+				break // the call stops at the member whose source cannot be read
+			}
 			if m.Get(mb.Path) == nil && m.Get(parentOf(mb.Path)) != nil {
 				if mb.Kind == "dir" {
 					m.Mkdir(mb.Path, mb.Perm)
@@ -259,6 +262,9 @@ func (r *MRunner) Do(s Step) (res MRes) {
 	case "arch_update":
 		res.DontCare = true
 		for _, mb := range s.Members {
+			if mb.FailOpen {
+				break
+			}
 			if n := m.Get(mb.Path); n != nil && n.Kind == "file" && mb.Kind == "file" && s.Replace {
 				n.Content = Bytes(mb.Size, mb.Dist, mb.Seed)
 			}
